@@ -33,8 +33,7 @@ def handleLogin13 (l : Line) : List Verdict :=
     let parcalled ← l.bool? "parcalled"; let par_secret ← l.bool? "par_secret"; let par_assertion ← l.bool? "par_assertion"
     let assertok ← l.bool? "assertok"; let assertwhy ← g "assertwhy"; let leak ← g "leak"
     let authz ← g "authzendpoint"; let endsession ← g "endsession"
-    let cfg : LoginCfg := { acrDefault := ← g "acrdef", localeDefault := ← g "locdef", acrSupported := ["idporten-loa-substantial", "idporten-loa-high"],
-                            localesSupported := ["nb", "nb", "en", "se"], par }
+    let cfg : LoginCfg := { acrDefault := ← g "acrdef", localeDefault := ← g "locdef", acrSupported := ← l.strs? "acrsup", localesSupported := ← l.strs? "locsup", par }
     let ing := matchingIngress ings host xfh path
     -- only requests that the router hands to the login / logout handler are in scope (everything else is the proxy's business)
     if !(ings.any fun i => path == i.path ++ "/oauth2/" ++ ep) then pure [Verdict.ok] else
